@@ -248,7 +248,7 @@ def make_body(programs, k_join, filtered, entry='run'):
         if final['raw_output'] != second['raw_output']:
             fail('abandoned thread changed the captured output', before=second['raw_output'][-60:], after=final['raw_output'][-60:])
         if final['stacks'] != (0, 0) or leaked:
-            fail('patch state not clean at quiescence', stacks=final['stacks'], leaked=leaked)
+            fail('patch state not clean at quiescence', stacks=final['stacks'], leaked=leaked, detail=getattr(snap, 'detail', None))
         if final['probe_value'] != 42:
             fail('abandoned thread changed later results', probe=final['probe_value'])
         if S.drain_exhausted and pname not in ('swallow',):
